@@ -478,12 +478,67 @@ class LongNames(Wrappers):
         return None
 
 
+# builders of messages that TS 38.413 clause 8 has the AMF send to the NG-RAN node (never a gNB-side message): the property
+# does not speak about them; the stream still compares their outcome with the model's (four of them, and the two empty
+# stubs, are refused by the encoder on the pinned tree because the builder leaves a mandatory list empty)
+AMF_ORIGINATED = {"BuildAMFConfigurationUpdate", "BuildAMFStatusIndication", "BuildNGSetupResponse", "BuildOverloadStart", "BuildOverloadStop",
+                  "BuildPDUSessionResourceModifyConfirm", "BuildPDUSessionResourceReleaseCommand", "BuildRanConfigurationUpdateAck",
+                  "BuildRanConfigurationUpdateFailure", "BuildUERadioCapabilityCheckRequest", "BuildUETNLABindingReleaseRequest"}
+
+
+class BuildersEnc(Stream):
+    """all library builders (the translator's table of 52 minus the two stubs), each called with the translator's three
+    sentinel argument sets, list/TMSI arguments present and absent, and encoded with the real ngap.Encoder: the octets are
+    the model's encode_call on the translated template, and no in-range call is refused"""
+    name, sub = "builders-encode", "buildenc"
+    shard = 60
+    requires = Wrappers.requires
+    model_check = "builder_enc_check"
+    model_out = "builder_enc_out"
+    history_dependent = False
+
+    def generate(self, rng, tier):
+        fns = C.harness_call(self.harness_path, "buildenc", [{"list": True, "root": C.REPO}])[0]["fns"]
+        return [{"fn": fn, "set": k, "absent": a} for fn in fns for k in range(3) for a in (False, True)]
+
+    def go_case(self, c):
+        return dict(c, root=C.REPO)
+
+    def coq_case(self, c, o):
+        args = []
+        for n, k, v in o["args"]:
+            if k in ("KInt", "KUint"):
+                a = "AInt %s" % cz(int(v))
+            elif k in ("KBytes", "KIPv4", "KTmsi"):
+                a = "ABytes %s" % C.cN(bytes.fromhex(v))
+            elif k == "KInts":
+                a = "AInts None" if v is None else "AInts (Some [%s])" % ";".join(cz(int(x)) for x in v)
+            else:
+                a = "AInts None"
+            args.append('("%s"%%string, %s)' % (n, a))
+        return '("%s"%%string, [%s], %s, %s)' % (c["fn"], "; ".join(args), C.cN(bytes.fromhex(o["plmn"])), coq_obs(o))
+
+    def classify(self, c, o):
+        return ("amf-originated:" if c["fn"] in AMF_ORIGINATED else "gnb-side:") + ("panic" if "panic" in o else "err" if "err" in o else "ok")
+
+    def key(self, c, o):
+        return "%s/%d/%s" % (c["fn"], c["set"], c["absent"])
+
+    def direct_check(self, c, o):
+        if "hex" not in o and c["fn"] not in AMF_ORIGINATED:
+            return "%s refuses / fails on in-range arguments: %s" % (c["fn"], o.get("err") or o.get("panic"))
+        return None
+
+    def known(self, c, o):
+        return None
+
+
 class C13(Check):
     pid = "C13"
     title = "gNB-side NGAP messages carry the caller's values and all mandatory IEs"
     prop_files = ["Properties/C13.v"]
     extra_targets = ["Model/Builders13.vo"]          # the stream needs the executable model even when a proof breaks
-    streams = [Wrappers(), LongNames()]
+    streams = [Wrappers(), LongNames(), BuildersEnc()]
     trusted = ["Coq 8.16.1 kernel incl. vm_compute (no native_compute)", "no axioms (Print Assumptions: closed under the global context)",
                "translator harness/gen_builders.go (gen-builders): sentinel probing of all 52 Build* functions and 14 Get* wrappers with three sentinel sets per variant, "
                "merged leaf by leaf (a leaf that differs without being a sentinel makes the translator fail for the emulator's messages); wrappers are probed through "
@@ -501,6 +556,8 @@ class C13(Check):
                    "used by the code and only the model check applies to the PLMN"]
 
     def regen(self, harness):
+        for st in self.streams:
+            st.harness_path = harness
         changed = gen.regen(harness, {"NgapSchema.v"})
         if any(o == "Builders.v" for _, o, _ in gen.REGISTRY):
             changed += gen.regen(harness, {"Builders.v"})
